@@ -190,6 +190,6 @@ func (e *env) buildTrace(sem int, closed bool) (string, bool) {
 			out = append(out, fmt.Sprintf("OAt %s %s", actor, y))
 		}
 	}
-	return fmt.Sprintf("{| c_recv := true; c_cap := %d%%nat; c_trace := %s; c_hooks := %d%%nat; c_forwards := %d%%nat; c_closed := %s |}",
-		sem, vlib.CoqList(out), e.w.NHooks(), nfwd, vlib.CoqBool(closed)), true
+	return fmt.Sprintf("{| c_recv := %s; c_cap := %d%%nat; c_trace := %s; c_hooks := %d%%nat; c_forwards := %d%%nat; c_closed := %s |}",
+		vlib.CoqBool(!e.noRecv), sem, vlib.CoqList(out), e.w.NHooks(), nfwd, vlib.CoqBool(closed)), true
 }
